@@ -18,7 +18,7 @@ SPEC_PART = dict(
            "empty only without entries and with theta = 2^63-1, seed hash the reader's unless empty, < 2^32 entries), hence "
            "deserialize(serialize[_compressed](value)) = value; at most 8*|input| entries for Ok results, and the two length "
            "guards in front of the reader's only allocations bound the request by the remaining bytes whatever the outcome (the "
-           "model has no allocator: that part is the guards as modelled + the harness's counting allocator). Seven defects found "
+           "model has no allocator: that part is the guards as modelled + the harness's counting allocator). Six defects found "
            "and repaired in /repo (D14 entry_bits/count bytes, allocation before length check incl. an "
            "abort, delta-sum overflow, D12 ordered flag, theta = 0 bounds panic, serVer 4 EMPTY flag with entries) - known_findings.d/theta-*.json. Tie: mutated "
            "images of all variants (field-aware: counts, theta, flags, entry_bits, count bytes, truncation, extension, adjacent "
